@@ -279,6 +279,8 @@ struct TS {
     target_dims: Option<Vec<usize>>,
     frozen: Vec<[bool; 2]>,
     eval_iter: u64,
+    /// class of the current iteration (configuration plus input kind)
+    iclass: String,
 }
 
 fn build_layers<'a>(specs: &[LayerSpec], params: &Params, acts: &'a [Option<Activation>]) -> Vec<Box<dyn Layer + 'a>> {
@@ -508,7 +510,7 @@ fn train_span(sim: &mut Sim, src: &mut dyn Source, rec: &mut Vec<Ev>, specs: &[L
     sim.train_first_layer = Some(specs[0].clone());
     sim.train_param_count = specs.len() * 2;
     sim.train_layer_count = specs.len();
-    let mut ts = TS { layers: specs.to_vec(), cost, lr, phase: Phase::Idle, iter: 0, x: None, target: None, before: None, before_handles_had_grad: false, pending: None, last_batch_dims: None, after_update: false, reference: None, class, out_dims_real: None, loss_real: None, target_dims: None, frozen: Vec::new(), eval_iter: 0 };
+    let mut ts = TS { layers: specs.to_vec(), cost, lr, phase: Phase::Idle, iter: 0, x: None, target: None, before: None, before_handles_had_grad: false, pending: None, last_batch_dims: None, after_update: false, reference: None, class, out_dims_real: None, loss_real: None, target_dims: None, frozen: Vec::new(), eval_iter: 0, iclass: String::new() };
     while !sim.dead {
         let ev = match src.next(sim) {
             Some(e) => e,
@@ -635,6 +637,11 @@ fn model_span(sim: &mut Sim, src: &mut dyn Source, rec: &mut Vec<Ev>, model: &mu
                     continue;
                 }
                 begin(sim, &ev);
+                let conv_batched = matches!(ts.layers[0], LayerSpec::Conv { .. }) && dims.len() >= 4;
+                ts.iclass = format!("{}{}", ts.class, if conv_batched { "|batched-conv-input" } else { "" });
+                if conv_batched {
+                    sim.fault("F12_batched_conv_input");
+                }
                 let x = mk(dims, vals);
                 let xv = to_f64(x.values());
                 let mut input_node = None;
@@ -652,7 +659,7 @@ fn model_span(sim: &mut Sim, src: &mut dyn Source, rec: &mut Vec<Ev>, model: &mu
                 let out = match r {
                     Ok(o) => o,
                     Err(_) => {
-                        sim.tviol("forward_panicked", &ts.class.clone(), format!("Model::forward panicked on an admitted input {:?}: {}", dims, crate::last_panic()));
+                        sim.tviol("forward_panicked", &ts.iclass.clone(), format!("Model::forward panicked on an admitted input {:?}: {}", dims, crate::last_panic()));
                         sim.dead = true;
                         end(sim, &StepOut::Dead);
                         return true;
@@ -730,7 +737,7 @@ fn model_span(sim: &mut Sim, src: &mut dyn Source, rec: &mut Vec<Ev>, model: &mu
                 let loss = match r {
                     Ok(l) => l as f64,
                     Err(_) => {
-                        sim.tviol("backward_panicked", &ts.class.clone(), format!("Model::backward panicked: {}", crate::last_panic()));
+                        sim.tviol("backward_panicked", &ts.iclass.clone(), format!("Model::backward panicked: {}", crate::last_panic()));
                         sim.dead = true;
                         end(sim, &StepOut::Dead);
                         return true;
@@ -745,11 +752,11 @@ fn model_span(sim: &mut Sim, src: &mut dyn Source, rec: &mut Vec<Ev>, model: &mu
                     let kink = rf.relu_margin < 1e-6;
                     if !kink {
                         if !out_ok {
-                            sim.tviol("forward_value", &ts.class.clone(), format!("iteration {}: model output {:?} {:?} differs from the documented formulas on the current parameters {:?} {:?}", ts.iter, od, ov, rf.out_dims, rf.out));
+                            sim.tviol("forward_value", &ts.iclass.clone(), format!("iteration {}: model output {:?} {:?} differs from the documented formulas on the current parameters {:?} {:?}", ts.iter, od, ov, rf.out_dims, rf.out));
                         } else {
                             let tol = tol_k() * eps() * 64.0 * (rf.loss.abs() + rf.loss_mag + 1.0);
                             if !((loss - rf.loss).abs() <= tol) {
-                                sim.tviol("loss_value", &ts.class.clone(), format!("iteration {}: returned loss {} but the loss of the current parameters on the current batch is {}", ts.iter, loss, rf.loss));
+                                sim.tviol("loss_value", &ts.iclass.clone(), format!("iteration {}: returned loss {} but the loss of the current parameters on the current batch is {}", ts.iter, loss, rf.loss));
                             }
                         }
                     }
@@ -769,7 +776,7 @@ fn model_span(sim: &mut Sim, src: &mut dyn Source, rec: &mut Vec<Ev>, model: &mu
                 begin(sim, &ev);
                 let r = catch_unwind(AssertUnwindSafe(|| model.update()));
                 if r.is_err() {
-                    sim.tviol("update_panicked", &ts.class.clone(), format!("Model::update panicked: {}", crate::last_panic()));
+                    sim.tviol("update_panicked", &ts.iclass.clone(), format!("Model::update panicked: {}", crate::last_panic()));
                     sim.dead = true;
                     end(sim, &StepOut::Dead);
                     return true;
@@ -788,7 +795,7 @@ fn model_span(sim: &mut Sim, src: &mut dyn Source, rec: &mut Vec<Ev>, model: &mu
                         // a leaked gradient makes the long-running model differ from a fresh one: that is the point
                     }
                     if Some(rl.to_bits()) != ts.loss_real.map(|l| l.to_bits()) {
-                        sim.tviol("restart_loss", &ts.class.clone(), format!("iteration {}: loss {} on the long-running model, {} on a fresh model restarted from the parameter snapshot", ts.iter, ts.loss_real.unwrap(), rl));
+                        sim.tviol("restart_loss", &ts.iclass.clone(), format!("iteration {}: loss {} on the long-running model, {} on a fresh model restarted from the parameter snapshot", ts.iter, ts.loss_real.unwrap(), rl));
                     }
                     restart_params = Some(rp);
                 }
@@ -822,7 +829,7 @@ fn model_span(sim: &mut Sim, src: &mut dyn Source, rec: &mut Vec<Ev>, model: &mu
                         sim.train.kink_guard += 1;
                     }
                 }
-                ts.pending = Some(Pending { iter: ts.iter, event: sim.event_index, abs, restart: restart_params, class: ts.class.clone() });
+                ts.pending = Some(Pending { iter: ts.iter, event: sim.event_index, abs, restart: restart_params, class: ts.iclass.clone() });
                 ts.after_update = true;
                 ts.phase = Phase::Idle;
                 sim.train_phase = 2;
